@@ -1,6 +1,6 @@
 """C26 Event.dumps/Event.loads round-trip name and payload (DESIGN 6/C26)."""
 from typing import Dict, List
-from vf.core import PASS, FAIL, verdict_symbolic, fresh_miros
+from vf.core import PASS, FAIL, verdict_symbolic, fresh_miros, ladder
 
 PROP = "C26"
 PART = {}
@@ -8,15 +8,15 @@ FUNCTIONS = ["miros.event.Event.__init__", "miros.event.Event.dumps", "miros.eve
              "json.dumps/json.loads (real, on a pool of concrete names and payloads: family h_json)"]
 ASSUMPTIONS = [
   "a fresh signal registry per path (the global one would let paths contaminate each other); variants: name new / already registered / a built-in",
-  "symbolic harnesses: signal name = symbolic str of length <= L, any characters; payload = symbolic value of the harness's type (None, bool, int, "
-  "str <= 2, List[int] <= 2, Dict[str<=1, int] <= 1, List[List[int]]); miros.event.json is replaced by a codec stub that satisfies only the documented "
+  "symbolic harnesses: signal name drawn by a symbolic index from a pool of 12 names (empty, unicode, quotes, backslash, line separators, a built-in name, 'null', '0'): miros' code uses the name only as a dictionary key, and CrossHair realises symbolic str keys of the real OrderedDict registry value by value (measured: not confirmed in 600 s); payload = symbolic value of the harness's type (None, bool, int, "
+  "str <= 2, List[int] <= 2, Dict[key from a pool of 4, symbolic int] <= 1, List[List[int]]); miros.event.json is replaced by a codec stub that satisfies only the documented "
   "contract loads(dumps(x)) == x (an opaque token holding a deep copy), so name and payload stay symbolic through miros' own code "
   "(with the real json module CrossHair did not finish within 600 s per condition - measured)",
   "real-json family h_json: 12 concrete names x 20 concrete payloads (unicode, quotes, backslashes, line separators, empty and falsy values, nesting, "
   "big ints, floats) through the real json module",
   "floats: CrossHair concretises floats at the C boundary; three fixed finite floats are checked as constants",
 ]
-OUTSIDE = ["payload nesting deeper than 2", "names longer than L", "non-finite floats (not JSON)", "non-string dict keys (not JSON-representable)"]
+OUTSIDE = ["payload nesting deeper than 2", "names outside the pool (miros uses the name only as a dictionary key)", "non-finite floats (not JSON)", "non-string dict keys (not JSON-representable)"]
 EXPLANATION = ("Symbolic execution (CrossHair/z3) of Event.loads(Event.dumps(e)) with symbolic signal name and symbolic payload: the result has the "
                "same name, an equal payload of the same JSON type, the number this process assigns to that name, and the name is registered afterwards.")
 RULE = "paths = distinct behaviours of miros' code and the json codec on the symbolic name/payload"
@@ -74,60 +74,78 @@ def okname(name):
   return len(name) <= PART.get("L", 2)
 
 
-def h_none(name: str) -> bool:
+def h_none(ni: int) -> bool:
   """
-  pre: okname(name)
+  pre: 0 <= ni < len(NAMES)
   post: _
   """
-  return verdict_symbolic([name, None, PART["variant"]], roundtrip(name, None, PART["variant"]), "round-trip:None")
+  ni = ladder(ni, 0, len(NAMES) - 1)
+  return verdict_symbolic([ni, None, PART["variant"]], roundtrip(NAMES[ni], None, PART["variant"]), "round-trip:None")
 
 
-def h_bool(name: str, payload: bool) -> bool:
+def h_bool(ni: int, payload: bool) -> bool:
   """
-  pre: okname(name)
+  pre: 0 <= ni < len(NAMES)
   post: _
   """
-  return verdict_symbolic([name, payload, PART["variant"]], roundtrip(name, payload, PART["variant"]), "round-trip:bool")
+  ni = ladder(ni, 0, len(NAMES) - 1)
+  return verdict_symbolic([ni, payload, PART["variant"]], roundtrip(NAMES[ni], payload, PART["variant"]), "round-trip:bool")
 
 
-def h_int(name: str, payload: int) -> bool:
+def h_int(ni: int, payload: int) -> bool:
   """
-  pre: okname(name)
+  pre: 0 <= ni < len(NAMES)
   post: _
   """
-  return verdict_symbolic([name, payload, PART["variant"]], roundtrip(name, payload, PART["variant"]), "round-trip:int")
+  ni = ladder(ni, 0, len(NAMES) - 1)
+  return verdict_symbolic([ni, payload, PART["variant"]], roundtrip(NAMES[ni], payload, PART["variant"]), "round-trip:int")
 
 
-def h_str(name: str, payload: str) -> bool:
+def h_str(ni: int, payload: str) -> bool:
   """
-  pre: okname(name) and len(payload) <= 2
+  pre: 0 <= ni < len(NAMES) and len(payload) <= 2
   post: _
   """
-  return verdict_symbolic([name, payload, PART["variant"]], roundtrip(name, payload, PART["variant"]), "round-trip:str")
+  ni = ladder(ni, 0, len(NAMES) - 1)
+  return verdict_symbolic([ni, payload, PART["variant"]], roundtrip(NAMES[ni], payload, PART["variant"]), "round-trip:str")
 
 
-def h_list(name: str, payload: List[int]) -> bool:
+def h_list(ni: int, payload: List[int]) -> bool:
   """
-  pre: okname(name) and len(payload) <= 2
+  pre: 0 <= ni < len(NAMES) and len(payload) <= 2
   post: _
   """
-  return verdict_symbolic([name, payload, PART["variant"]], roundtrip(name, payload, PART["variant"]), "round-trip:list")
+  ni = ladder(ni, 0, len(NAMES) - 1)
+  return verdict_symbolic([ni, payload, PART["variant"]], roundtrip(NAMES[ni], payload, PART["variant"]), "round-trip:list")
 
 
-def h_dict(name: str, payload: Dict[str, int]) -> bool:
+KEYS = ["", "k", "\u00e9", "signal_name"]
+
+
+def h_dict(ni: int, ki: int, has: bool, val: int) -> bool:
   """
-  pre: okname(name) and len(payload) <= 1 and all(len(k) <= 1 for k in payload)
+  pre: 0 <= ni < len(NAMES) and 0 <= ki < len(KEYS)
   post: _
   """
-  return verdict_symbolic([name, payload, PART["variant"]], roundtrip(name, payload, PART["variant"]), "round-trip:dict")
+  # dict keys come from a pool (CrossHair enumerates symbolic str keys of a real dict value by value and does not finish);
+  # presence and value stay symbolic
+  ni = ladder(ni, 0, len(NAMES) - 1)
+  ki = ladder(ki, 0, len(KEYS) - 1)
+  payload = {KEYS[ki]: val} if has else {}
+  return verdict_symbolic([ni, ki, has, val, PART["variant"]], roundtrip(NAMES[ni], payload, PART["variant"]), "round-trip:dict")
 
 
-def h_nested(name: str, payload: List[List[int]]) -> bool:
+def case_dict(ni, ki, has, val, variant):
+  return case_generic(NAMES[ni], {KEYS[ki]: val} if has else {}, variant)
+
+
+def h_nested(ni: int, payload: List[List[int]]) -> bool:
   """
-  pre: okname(name) and len(payload) <= 2 and all(len(x) <= 1 for x in payload)
+  pre: 0 <= ni < len(NAMES) and len(payload) <= 2 and all(len(x) <= 1 for x in payload)
   post: _
   """
-  return verdict_symbolic([name, payload, PART["variant"]], roundtrip(name, payload, PART["variant"]), "round-trip:nested")
+  ni = ladder(ni, 0, len(NAMES) - 1)
+  return verdict_symbolic([ni, payload, PART["variant"]], roundtrip(NAMES[ni], payload, PART["variant"]), "round-trip:nested")
 
 
 def h_builtin(which: int, payload: int) -> bool:
@@ -199,9 +217,14 @@ Family(globals(), "h_json", params=[("ni", 0, len(NAMES) - 1), ("pi", 0, len(PAY
        split=["variant"], tiers=LIM)
 _JSON_CASE = case_json
 
-CASES_EXTRA = {"h_none": case_generic, "h_bool": case_generic, "h_int": case_generic, "h_str": case_generic, "h_list": case_generic,
-         "h_dict": lambda n, p, v: case_generic(n, dict(p) if not isinstance(p, dict) else p, v), "h_nested": case_generic,
-         "h_builtin": case_builtin, "h_float": case_float}
+def case_pool(ni, payload, variant):
+  if isinstance(payload, dict):
+    payload = dict(payload)
+  return case_generic(NAMES[ni], payload, variant)
+
+
+CASES_EXTRA = {"h_none": case_pool, "h_bool": case_pool, "h_int": case_pool, "h_str": case_pool, "h_list": case_pool,
+               "h_dict": case_dict, "h_nested": case_pool, "h_builtin": case_builtin, "h_float": case_float}
 CASES.update(CASES_EXTRA)
 
 
